@@ -1,11 +1,107 @@
+import TinsModel.Threads.Spec
+import TinsModel.Threads.Policy
+import TinsModel.Threads.Crc
 import Driver.Util
-/- line-protocol driver for property C18 (stub until the area is built) -/
-namespace Driver.C18
-open Driver
+/- line-protocol driver for property C18 (threads over private objects).
 
-def step (st : Unit) (_line : String) : Unit × String := (st, "unimplemented")
-def specStep (st : Unit) (_line : String) : Unit × String := (st, "unimplemented")
-def initModel : Unit := ()
-def initSpec : Unit := ()
+   ops (see harness/c18_threads.cpp):
+     case <id>
+     w <tid> crc <iters> <hex>
+     w <tid> <kind> <iters> <seed> alone=<digest>      digest of the workload run alone in its own process
+     go <yseed> <reps>
+   model mode: the registered workloads become threads of the abstract machine over the libtins cells (each thread
+   loads the statics it may read and its own cell, stores its result to its own cell); `go` runs the machine under
+   a pseudo-random schedule derived from <yseed> and prints every thread's result, the run-alone results and the
+   number of conflicting pairs met on the way.  For `crc` workloads the result is computed by the code-shaped `crc32` over the generated
+   table.
+   spec mode: `<op> ||| <implementation output>` is judged by `goVerdict` / the bitwise CRC-32. -/
+namespace Driver.C18
+open Driver Tins.Threads
+
+structure MState where
+  alone : List String := []      -- result of each registered workload when run alone, in registration order
+
+def kvOf (ws : List String) (key : String) : Option String :=
+  ws.findSome? (fun w => if w.startsWith (key ++ "=") then some ((w.drop (key.length + 1)).toString) else none)
+
+/-- thread `i` of the machine: one action that loads every static and its own cell and stores the index of its
+    result; local state = (pc, result index) -/
+def workThread (nstatics : Nat) (i : Nat) : Thread Cell (Nat × Nat) where
+  next s := match s.1 with
+    | 0 => some { rd := (List.range nstatics).map Cell.static ++ [Cell.priv i 0], wr := [Cell.priv i 0],
+                  k := fun _ => ((1, i + 1), [i + 1]) }
+    | _ => none
+
+/-- splitmix-like schedule of `2 * n` steps over `n` threads (every thread gets at least its one step at the end) -/
+def schedule (seed n : Nat) : List Nat :=
+  if n = 0 then [] else
+  let rec go (k : Nat) (x : Nat) (acc : List Nat) : List Nat :=
+    match k with
+    | 0 => acc
+    | k + 1 =>
+      let x' := (x * 6364136223846793005 + 1442695040888963407) % 18446744073709551616
+      go k x' ((x' / 4294967296) % n :: acc)
+  go (2 * n) (seed + 1) [] ++ List.range n
+
+def runModel (alone : List String) (yseed : Nat) : List String × Nat :=
+  let n := alone.length
+  let T := workThread Tins.Gen.StaticVars.all.length
+  let c0 : Cfg Cell (Nat × Nat) := { loc := fun _ => (0, 0), mem := fun _ => 0 }
+  let sched := schedule yseed n
+  -- execute the schedule, counting configurations in which two different threads conflict
+  let (c, races) := sched.foldl (fun (acc : Cfg Cell (Nat × Nat) × Nat) i =>
+      let conflicts := (List.range n).foldl (fun r a => (List.range n).foldl (fun r b =>
+        if a < b && conflictAt T acc.1 a b then r + 1 else r) r) 0
+      (step T acc.1 i, acc.2 + conflicts)) (c0, 0)
+  ((List.range n).map (fun i => match (c.loc i).2 with
+      | 0 => "NOT-RUN"
+      | r + 1 => alone[r]?.getD "?"), races)
+
+def step (st : MState) (line : String) : MState × String :=
+  match words line with
+  | "case" :: _ => ({ alone := [] }, "case")
+  | "w" :: tid :: "crc" :: _iters :: h :: _ =>
+    match parseHex h with
+    | some d => let dg := toString (crc32 d).toNat
+                ({ st with alone := st.alone ++ [dg] }, s!"w {tid} reg")
+    | none => (st, "bad-op")
+  | "w" :: tid :: _kind :: _iters :: _seed :: rest =>
+    match kvOf rest "alone" with
+    | some dg => ({ st with alone := st.alone ++ [dg] }, s!"w {tid} reg")
+    | none => (st, "bad-op")
+  | "go" :: ys :: _reps :: _ =>
+    match ys.toNat? with
+    | some y =>
+      let (res, races) := runModel st.alone y
+      let seq := if st.alone.isEmpty then "-" else joinWith "," st.alone
+      (st, s!"go conc={if res.isEmpty then "-" else joinWith "," res} seq={seq} races={races}")
+    | none => (st, "bad-op")
+  | _ => (st, "bad-op")
+
+/-- spec mode: each input line is `<op> ||| <implementation output>` -/
+def specStep (st : MState) (line : String) : MState × String :=
+  match line.splitOn " ||| " with
+  | [op, out] =>
+    let ow := words out
+    match words op with
+    | "case" :: _ => ({ alone := [] }, "ok")
+    | "w" :: _tid :: kind :: _iters :: arg :: rest =>
+      let expected : Option String :=
+        if kind == "crc" then (parseHex arg).map (fun d => toString (crc32Spec d).toNat) else kvOf rest "alone"
+      match expected with
+      | some e => ({ st with alone := st.alone ++ [e] }, if out.trimAscii.toString.endsWith " reg" then "ok" else "violates unparsable-output")
+      | none => (st, "unspecified")
+    | "go" :: _ =>
+      match kvOf ow "conc", kvOf ow "seq", (kvOf ow "races").bind (·.toNat?) with
+      | some cs, some ss, some races =>
+        let conc := if cs == "-" then [] else cs.splitOn ","
+        let seq := if ss == "-" then [] else ss.splitOn ","
+        (st, goVerdict st.alone conc seq races)
+      | _, _, _ => (st, "violates unparsable-output")
+    | _ => (st, "unspecified")
+  | _ => (st, "bad-line")
+
+def initModel : MState := {}
+def initSpec : MState := {}
 
 end Driver.C18
